@@ -1,0 +1,54 @@
+//go:build verif
+
+package nsqd
+
+import (
+	"encoding/json"
+	"net"
+	"os"
+)
+
+// Verification-only status socket for subprocess daemons (property C06, metadata
+// persistence): when NSQ_VERIF_SOCK names a path, a unix socket is opened there and
+// every connection is answered with one JSON object holding the hit counters of all
+// verifPoint names passed so far, e.g. {"notify:spawn":3,"notify:done":3,...}.
+// "no Notify goroutine pending" is notify:spawn == notify:done.
+func init() {
+	path := os.Getenv("NSQ_VERIF_SOCK")
+	if path == "" {
+		return
+	}
+	os.Remove(path)
+	l, err := net.Listen("unix", path)
+	if err != nil {
+		return
+	}
+	go func() {
+		for {
+			c, err := l.Accept()
+			if err != nil {
+				return
+			}
+			verifMu.Lock()
+			snap := make(map[string]int, len(verifHits))
+			for k, v := range verifHits {
+				snap[k] = v
+			}
+			verifMu.Unlock()
+			b, _ := json.Marshal(snap)
+			c.Write(b)
+			c.Close()
+		}
+	}()
+}
+
+// VerifHitsAll returns a copy of all hit counters (in-process harnesses).
+func VerifHitsAll() map[string]int {
+	verifMu.Lock()
+	defer verifMu.Unlock()
+	snap := make(map[string]int, len(verifHits))
+	for k, v := range verifHits {
+		snap[k] = v
+	}
+	return snap
+}
